@@ -1,5 +1,6 @@
 """C06 - DEX strings decode to exactly the UTF-16 text their MUTF-8 bytes encode."""
 import io
+import random
 import struct
 
 from tools.vlib.coqfmt import Err, z, zlist
@@ -97,15 +98,19 @@ def gen_pools(rng, tier, ctx):
         uss = [rand_units(rng, rng.choice((12, 12, 70, 140))) for _ in range(n)]
         last = rng.random() < 0.5
         tail = bytes(rng.randrange(256) for _ in range(rng.choice((0, 0, 1, 3, 50, 200)))) if last else b""
-        cases.append((uss, last, tail, rng.randrange(0, 5)))
+        cases.append((uss, last, tail, rng.randrange(0, 5)) + ((rng.choice(("reverse", rng.randrange(1, 10**6))),) if rng.random() < 0.4 else ()))
     return cases
 
 
 def build_pool(case):
     from tools.writers.dexwriter import DexBuilder, Code, Str, Str32
-    uss, last, tail, nconst = case
+    uss, last, tail, nconst = case[:4]
     strs = ["".join(chr(u) for u in us) for us in uss]
-    b = DexBuilder(extra_strings=strs, strings_last=last, tail=tail)
+    order = case[4] if len(case) > 4 else None            # the string data items written in another order than the string ids
+    if isinstance(order, int):
+        seed = order
+        order = lambda n: random.Random(seed).sample(range(n), n)
+    b = DexBuilder(extra_strings=strs, strings_last=last, tail=tail, string_data_order=order)
     k = b.add_class("Lp/A;")
     units = []
     for j, s in enumerate(strs[:nconst]):
@@ -127,6 +132,7 @@ def impl_pools(case):
     n = len(b.strings)
     items = [[it.get_off(), it.get_utf16_size(), text_of(it.get())] for it in d.strings]
     texts = [text_of(cm.get_raw_string(i)) for i in range(n)]
+    texts2 = [text_of(cm.get_raw_string(i)) for i in reversed(range(n))][::-1]
     consts = []
     cls = d.get_classes()[0]
     names = []
@@ -137,7 +143,7 @@ def impl_pools(case):
                 consts.append([ins.get_ref_kind(), text_of(ins.get_raw_string()), text_of(cm.get_string(ins.get_ref_kind()))])
     for f in cls.get_fields():
         names.append(text_of(f.get_name()))
-    return {"items": items, "texts": texts, "all": [text_of(s) for s in d.get_strings()], "consts": consts, "names": names,
+    return {"items": items, "texts": texts, "texts2": texts2, "all": [text_of(s) for s in d.get_strings()], "consts": consts, "names": names,
             "pool": [[ord(c) for c in s] for s in b.strings], "sd_off": b.string_data_off, "ids": list(b.string_data_offsets),
             "raw": raw}
 
@@ -153,16 +159,19 @@ def canon_pools(res):
 def oracle_pools(case, res):
     if isinstance(res, Err):
         return "parsing the generated DEX failed: %s %s" % (res.name, res.msg[:160])
-    uss, last, tail, nconst = case
+    uss, last, tail, nconst = case[:4]
+    # DEX.strings / DEX.get_strings() list the string data items in the order of the file; string ids are another matter
+    place = {i: k for k, i in enumerate(sorted(range(len(res["ids"])), key=lambda i: res["ids"][i]))}
     for i, units in enumerate(res["pool"]):
         want = join_pairs(units)
-        for what, got in (("get_raw_string(%d)" % i, res["texts"][i]), ("get_strings()[%d]" % i, res["all"][i]),
-                          ("string item %d" % i, res["items"][i][2])):
+        k = place[i]
+        for what, got in (("get_raw_string(%d)" % i, res["texts"][i]), ("get_raw_string(%d) asked again" % i, res["texts2"][i]),
+                          ("get_strings()[%d]" % k, res["all"][k]), ("string item %d" % k, res["items"][k][2])):
             if got != want:
                 return "%s: UTF-16 units %s decoded to %s, expected code points %s" % (
                     what, [hex(u) for u in units], got if isinstance(got, Err) else [hex(c) for c in got], [hex(c) for c in want])
-        if res["items"][i][1] != len(units):
-            return "string item %d: utf16_size %d, the file says %d" % (i, res["items"][i][1], len(units))
+        if res["items"][k][1] != len(units):
+            return "string item %d: utf16_size %d, the file says %d" % (k, res["items"][k][1], len(units))
     for idx, raw_s, s in res["consts"]:
         want = join_pairs(res["pool"][idx])
         if raw_s != want or s != want:
@@ -175,7 +184,8 @@ def oracle_pools(case, res):
 
 def stats_pools(cases, results):
     d = {"files": len(cases), "strings": 0, "units": 0, "nul": 0, "lone_surrogates": 0, "pairs": 0, "strings_last": 0, "bom_first": 0}
-    for uss, last, tail, nc in cases:
+    d["data_order_differs_from_id_order"] = sum(1 for c in cases if len(c) > 4)
+    for uss, last, tail, nc in (c[:4] for c in cases):
         d["strings_last"] += last
         for us in uss:
             d["strings"] += 1
